@@ -161,6 +161,12 @@ def run(chk):
         r02_4(chk, so)
     if chk.want("R02.5"):
         r02_5(chk, sg, decoded, fidx)
+    chk.rule("R02.7", "an operation set written as text (CIF symmetry loop, SHELX SYMM cards, str()) reads back as the same set, so that the lookup "
+                      "finds the same setting: the x,y,z string codec is consistent (= C11 R11.7; entry (i, j) of the rotation decides symbol j of "
+                      "component i -- transposed, 3-, 4- and 6-fold operations come back as their inverses and P4_1 as P4_3)", 6)
+    if chk.want("R02.7"):
+        from ..inherit import inherit
+        inherit(chk, "R02.7", "c11", ["R11.7"])
     chk.assume("decode_symm_int implements the packing of the model (decided by C11 R11.1)")
 
 
@@ -258,9 +264,17 @@ def r02_1(chk, sg, emit=True):
                     elif ca[2].const_value() is not None and ca[1].key() == lp:
                         bounds.add(("hi", int(ca[2].const_value()) - (1 if ca[0] == "lt" else 0)))
         tested = any(lp in c.key() and (c.as_atom() or ("",))[0] in ("lt", "le", "and", "or") for e in ev.events if e.kind == "raise" for c, _ in e.guards)
+        # ... every one of them: the only other condition on the way to the expansion is "a LATT number was given" (LATT -1 adds no
+        # centring and no inversion, but the expansion is also what completes the list by the identity)
+        excluded = []
+        for e in ex:
+            for c, pol in e.guards:
+                ca = c.as_atom()
+                if ca and ca[0] in ("ne", "eq", "in", "notin") and lp in c.key() and "None" not in c.key():
+                    excluded.append(("" if pol else "not ") + str(c)[:60])
         chk.ob("R02.1", SG, "SpaceGroup.from_symmetry_operations", "the expansion is reached for every LATT number -7 .. 7 (a range test, where there is one, "
-               "admits exactly those)", bool(ex) and (bounds == {("lo", -7), ("hi", 7)} or (not tested and not bounds)), fingerprint="latt-range",
-               expected="-8 < expand_latt < 8", found=sorted(bounds))
+               "admits exactly those)", bool(ex) and (bounds == {("lo", -7), ("hi", 7)} or (not tested and not bounds)) and not excluded,
+               fingerprint="latt-range", expected="-8 < expand_latt < 8", found=excluded or sorted(bounds))
     return q_sorted and not key_sorted
 
 
